@@ -49,10 +49,14 @@ macro_rules! strict_ops {
             }
             pub fn d_ff(x: &Sx) -> Option<FF> {
                 match x {
-                    Sx::L(l) if l.len() == 2 => Some(FF {
-                        table: d_arr(&l[0])?,
-                        target: d_nat(&l[1])?,
-                    }),
+                    // the crate's hand-written Clone impls are exercised on every decoded value
+                    Sx::L(l) if l.len() == 2 => Some(
+                        FF {
+                            table: d_arr(&l[0])?,
+                            target: d_nat(&l[1])?,
+                        }
+                        .clone(),
+                    ),
                     _ => None,
                 }
             }
@@ -65,7 +69,7 @@ macro_rules! strict_ops {
                         let mut c = ICF::initial(0);
                         c.sources = d_ff(&l[0])?;
                         c.values = d_ff(&l[1])?;
-                        Some(c)
+                        Some(c.clone())
                     }
                     _ => None,
                 }
@@ -78,8 +82,8 @@ macro_rules! strict_ops {
                     Sx::L(l) if l.len() == 2 => {
                         let mut c = ICS::<usize>::singleton(SemifiniteFunction(arr(vec![])));
                         c.sources = d_ff(&l[0])?;
-                        c.values = SemifiniteFunction(d_arr(&l[1])?);
-                        Some(c)
+                        c.values = SemifiniteFunction(d_arr(&l[1])?).clone();
+                        Some(c.clone())
                     }
                     _ => None,
                 }
@@ -89,12 +93,15 @@ macro_rules! strict_ops {
             }
             pub fn d_hg(x: &Sx) -> Option<HG> {
                 match x {
-                    Sx::L(l) if l.len() == 4 => Some(Hypergraph {
-                        s: d_icf(&l[0])?,
-                        t: d_icf(&l[1])?,
-                        w: SemifiniteFunction(d_arr(&l[2])?),
-                        x: SemifiniteFunction(d_arr(&l[3])?),
-                    }),
+                    Sx::L(l) if l.len() == 4 => Some(
+                        Hypergraph {
+                            s: d_icf(&l[0])?,
+                            t: d_icf(&l[1])?,
+                            w: SemifiniteFunction(d_arr(&l[2])?),
+                            x: SemifiniteFunction(d_arr(&l[3])?),
+                        }
+                        .clone(),
+                    ),
                     _ => None,
                 }
             }
@@ -103,11 +110,14 @@ macro_rules! strict_ops {
             }
             pub fn d_ohg(x: &Sx) -> Option<OHG> {
                 match x {
-                    Sx::L(l) if l.len() == 3 => Some(OpenHypergraph {
-                        s: d_ff(&l[0])?,
-                        t: d_ff(&l[1])?,
-                        h: d_hg(&l[2])?,
-                    }),
+                    Sx::L(l) if l.len() == 3 => Some(
+                        OpenHypergraph {
+                            s: d_ff(&l[0])?,
+                            t: d_ff(&l[1])?,
+                            h: d_hg(&l[2])?,
+                        }
+                        .clone(),
+                    ),
                     _ => None,
                 }
             }
@@ -125,7 +135,7 @@ macro_rules! strict_ops {
                         p.x = SemifiniteFunction(d_arr(&l[0])?);
                         p.a = d_ics(&l[1])?;
                         p.b = d_ics(&l[2])?;
-                        Some(p)
+                        Some(p.clone())
                     }
                     _ => None,
                 }
@@ -379,21 +389,21 @@ macro_rules! strict_ops {
                         let (f, g) = (d_ff(&a[0])?, d_ff(&a[1])?);
                         let r1 = f.compose(&g);
                         let r2 = &f >> &g;
-                        assert!(r1 == r2, "compose and >> differ");
+                        assert!(e_opt(r1.clone(), |f| e_ff(&f)) == e_opt(r2, |f| e_ff(&f)), "compose and >> differ");
                         ok(e_opt(r1, |f| e_ff(&f)))
                     }
                     "ff_compose_semi" => {
                         let (f, u) = (d_ff(&a[0])?, SemifiniteFunction::<K, usize>(d_arr(&a[1])?));
                         let r1 = compose_semifinite(&f, &u);
                         let r2 = &f >> &u;
-                        assert!(r1 == r2, "compose_semifinite and >> differ");
+                        assert!(e_opt(r1.clone(), |u| e_arr(&u.0)) == e_opt(r2, |u| e_arr(&u.0)), "compose_semifinite and >> differ");
                         ok(e_opt(r1, |u| e_arr(&u.0)))
                     }
                     "ff_coproduct" => {
                         let (f, g) = (d_ff(&a[0])?, d_ff(&a[1])?);
                         let r1 = f.coproduct(&g);
                         let r2 = &f + &g;
-                        assert!(r1 == r2, "coproduct and + differ");
+                        assert!(e_opt(r1.clone(), |f| e_ff(&f)) == e_opt(r2, |f| e_ff(&f)), "coproduct and + differ");
                         e_opt(r1, |f| e_ff(&f))
                     }
                     "ff_inj0" => ok(e_ff(&FF::inj0(d_nat(&a[0])?, d_nat(&a[1])?))),
@@ -402,7 +412,7 @@ macro_rules! strict_ops {
                         let (f, g) = (d_ff(&a[0])?, d_ff(&a[1])?);
                         let r1 = f.tensor(&g);
                         let r2 = &f | &g;
-                        assert!(r1 == r2, "tensor and | differ");
+                        assert!(e_ff(&r1) == e_ff(&r2), "tensor and | differ");
                         e_ff(&r1)
                     }
                     "ff_twist" => ok(e_ff(&FF::twist(d_nat(&a[0])?, d_nat(&a[1])?))),
@@ -410,6 +420,18 @@ macro_rules! strict_ops {
                     "ff_injections" => ok(e_opt(d_ff(&a[0])?.injections(&d_ff(&a[1])?), |f| e_ff(&f))),
                     "ff_cumulative_sum" => ok(e_ff(&d_ff(&a[0])?.cumulative_sum())),
                     "ff_is_injective" => ok(e_bool(d_ff(&a[0])?.is_injective())),
+                    // the hand-written PartialEq impls
+                    "ff_eq" => {
+                        let (f, g) = (d_ff(&a[0])?, d_ff(&a[1])?);
+                        assert!((f == g) == !(f != g));
+                        e_bool(f == g)
+                    }
+                    "icf_eq" => e_bool(d_icf(&a[0])? == d_icf(&a[1])?),
+                    "ics_eq" => e_bool(d_ics(&a[0])? == d_ics(&a[1])?),
+                    "semi_eq" => e_bool(
+                        SemifiniteFunction::<K, usize>(d_arr(&a[0])?) == SemifiniteFunction::<K, usize>(d_arr(&a[1])?),
+                    ),
+                    "arr_eq" => e_bool(d_arr(&a[0])? == d_arr(&a[1])?),
                     "ff_coequalizer" => ok(e_opt(d_ff(&a[0])?.coequalizer(&d_ff(&a[1])?), |f| e_ff(&f))),
                     "ff_coequalizer_universal" => ok(e_opt(
                         d_ff(&a[0])?.coequalizer_universal(&d_ff(&a[1])?),
